@@ -96,9 +96,11 @@ impl Scenario for BusHistory {
         let cfg = index as usize;
         let cart_type = crate::cart::CART_TYPES[cfg % 7];
         case.set("cart_type", cart_type as i64);
-        case.set("rom_code", if cart_type == 0 { 0 } else { [0i64, 1, 2, 3][(cfg / 7) % 4] });
+        // mostly small ROMs; one configuration in four has 64 or 128 banks so that MBC1's upper bank bits matter
+        case.set("rom_code", if cart_type == 0 { 0 } else { [0i64, 1, 3, if cfg % 2 == 0 { 5 } else { 6 }][(cfg / 7) % 4] });
         case.set("ram_code", crate::cart::RAM_CODES[(cfg / 28) % 6] as i64);
-        case.set("rom_fill", 2 + rng.below(1 << 30) as i64);
+        // large images are too big for a pattern fill: every bank carries its index instead
+        case.set("rom_fill", if case.get("rom_code") >= 5 { 1 } else { 2 + rng.below(1 << 30) as i64 });
         case.set("ramfill", if rng.chance(1, 8) { 0 } else { 1 + rng.below(1 << 30) as i64 });
         if cart_type != 0 {
             case.push("w", &[0x0000, 0x0a]);
@@ -139,7 +141,7 @@ impl Scenario for BusHistory {
                 19 => case.push("w", &[0xff46, rng.pick(&[0x00u8, 0x3f, 0x40, 0x7f, 0x80, 0x9f, 0xa0, 0xbf, 0xc0, 0xd0, 0xdf, 0xe0, 0xfd, 0xfe, 0xff, 0xc1]) as i64]),
                 20 | 21 => {
                     let (reg, v) = match rng.below(4) {
-                        0 | 1 => (0x2000 + rng.below(0x2000) as i64, rng.byte_b() as i64),
+                        0 | 1 => (0x2000 + rng.below(0x2000) as i64, if rng.chance(1, 2) { rng.byte_b() as i64 } else { rng.pick(&[0i64, 1, 0x1f, 0x20, 0x21, 0x3f, 0x40, 0x41, 0x60, 0x7f]) }),
                         2 => (0x4000 + rng.below(0x2000) as i64, rng.below(4) as i64),
                         _ => (0x6000 + rng.below(0x2000) as i64, rng.below(2) as i64),
                     };
